@@ -69,3 +69,34 @@ PROPS["C08"] = {
     ],
     "floor_q": 100, "floor_t": 5000,
 }
+
+_LIBMEM_RULE = ("node sets of 1-8 nodes (DRAM/PMEM/HBM, capacities 0-20 units, normal/movable, tree/line/ring/flat/random distance matrices, "
+                "default or two custom ExpandZone orders) and histories of 1-40 Allocate/GetOffer/Commit(any outstanding offer, arbitrarily late)/"
+                "Realloc/Release/Reset operations over 10 request slots with sizes 0-25, arbitrary affinity masks (occasionally invalid), "
+                "preferred/strict type masks and priorities BestEffort..Reservation plus arbitrary values; ")
+
+PROPS["C06"] = {
+    "level": "exploration",
+    "technique": "rapid stateful histories against the public libmem API; oracle = full-state before/after comparison for failed ops and GetOffer, a twin allocator that never sees offers (differential: commit==allocate, offers are pure), and a staleness model counting successful mutations",
+    "rule": _LIBMEM_RULE + "a history is non-trivial for C06 when it commits an offer after >= 1 intervening successful mutation, or contains an "
+            "Allocate/Realloc that fails with ErrNoMem while other allocations exist (overcommit resolution ran and had to be rolled back); distinct = hash of the whole case",
+    "assumptions": ["a successful Realloc that changes nothing is not counted as a mutation; staleness of older offers is not judged after one",
+                    "offers that straddle a Reset are not judged"],
+    "units": [
+        {"name": "histories", "pkg": "./pkg/resmgr/lib/memory", "run": "^TestVerifLibmem$", "replay_run": "^TestVerifLibmemReplay$", "q": 4000, "t": 800000},
+        {"name": "overcommit-histories", "pkg": "./pkg/resmgr/lib/memory", "run": "^TestVerifLibmemOvercommit$", "replay_run": "^TestVerifLibmemReplay$", "q": 2000, "t": 400000},
+    ],
+    "floor_q": 100, "floor_t": 5000,
+}
+
+PROPS["C07"] = {
+    "level": "exploration",
+    "technique": "rapid stateful histories against the public libmem API; oracle = placement validity predicates after every successful operation (capacity of every node subset, strict types, normal memory, superset moves, immovable reservations, exact update map) computed from generator-side capacities",
+    "rule": _LIBMEM_RULE + "a history is non-trivial for C07 when some operation returned a non-empty update map (other allocations were moved); distinct = hash of the whole case",
+    "assumptions": ["'nodes of the requested types' is read as nodes whose type is in the mask, with or without memory"],
+    "units": [
+        {"name": "histories", "pkg": "./pkg/resmgr/lib/memory", "run": "^TestVerifLibmem$", "replay_run": "^TestVerifLibmemReplay$", "q": 3000, "t": 600000},
+        {"name": "overcommit-histories", "pkg": "./pkg/resmgr/lib/memory", "run": "^TestVerifLibmemOvercommit$", "replay_run": "^TestVerifLibmemReplay$", "q": 4000, "t": 800000},
+    ],
+    "floor_q": 100, "floor_t": 5000,
+}
